@@ -80,7 +80,7 @@ func runC02(rc *RunCtx) {
 	winSel := F.Draw(4)
 	abortsOn := F.Draw(4) == 1
 	keys := genKeys(G, 1+G.Draw(6), "")
-	srv := startTCPServer(rc, w, tcpServerOpts{Keys: keys, Replay: []int{0, 50}[G.Draw(2)], Timeout: []time.Duration{time.Second, 59 * time.Second}[G.Draw(2)], UseSvc: G.Draw(3) == 0})
+	srv := startTCPServer(rc, w, tcpServerOpts{Keys: keys, Replay: []int{0, 50}[G.Draw(2)], Timeout: []time.Duration{time.Second, 59 * time.Second}[G.Draw(2)], UseSvc: G.Draw(3) == 0, Debug: rc.F.Draw(3) == 1})
 	nConn := 1 + G.Draw(3)
 	big := rc.Tier == "thorough" || G.Draw(5) == 0
 	conns := make([]*c02conn, nConn)
@@ -304,6 +304,39 @@ func runC02(rc *RunCtx) {
 				cc.Close()
 			}
 			c.clientDone = true
+		})
+	}
+	// In a quarter of the runs the listener is closed (a reload that drops the
+	// address, a shutdown) once every connection of the run has reached its target:
+	// the connections of the run are established relays by then and complete as
+	// they would have.
+	if G.Draw(4) == 0 {
+		ny := G.Draw(8)
+		pause := time.Duration(G.Draw(3)) * 200 * time.Millisecond
+		simrt.GoNamed("c02-listener-close", func() {
+			// (relaying = its target has been reached: a dial still in flight is
+			// cancelled with the listener's context, and rightly so)
+			all := false
+			for tries := 0; tries < 2000 && !all; tries++ {
+				all = true
+				for _, c := range conns {
+					if c.dialErr == nil && c.tc == nil {
+						all = false
+					}
+				}
+				if !all {
+					simrt.Sleep(time.Millisecond)
+				}
+			}
+			if !all {
+				return
+			}
+			simrt.Sleep(pause)
+			for i := 0; i < ny; i++ {
+				simrt.Yield()
+			}
+			srv.Stop()
+			simrt.Probe("listener_closed_under_established_relays")
 		})
 	}
 	simrt.Quiesce()
